@@ -289,370 +289,230 @@ fn is_susp(s: &Snap, i: Option<usize>) -> Option<bool> {
     }
 }
 
-// ---------------------------------------------------------------- insert
-fn check_insert(slots: usize, holes: &[usize]) {
+// ---------------------------------------------------------------- observers
+/// Contracts of the read-only functions.  The two private selectors carry exactly the contract
+/// that the Verus unit `joblist` ASSUMES for them (external_body there); here it is checked on the
+/// real code.  The table is built once; every (current, previous) index pair is then tried by
+/// assigning the two private fields.
+fn check_observers(slots: usize, holes: &[usize], cur: usize, prev: usize) {
     let n = slots + 1;
-    for_all_index_pairs!(slots, |cur, prev| {
-        let mut list = shaped_list(slots, holes, cur, prev);
-        let pre = snapshot(&list, n);
-        if wf_snap(&pre, &list, n) {
-            let job = any_job();
-            let expected = js(&job);
-            // precondition from the property's quantifier: fresh pid, or pid of a finished job
-            let existing = pre.find(job.pid, n);
-            let pre_ok = match existing {
-                Some(e) => !pre.get(e).unwrap().state.is_alive(),
-                None => true,
-            };
-            if pre_ok {
-                kani::cover!(existing.is_some(), "insert: pid of a finished job is reachable");
-                kani::cover!(existing.is_none(), "insert: fresh pid is reachable");
-                let pre_cur_susp = is_susp(&pre, pre.cur);
-                let pre_prev_susp = is_susp(&pre, pre.prev);
-                let new_susp = expected.state.is_stopped();
-
-                let index = list.insert(job);
-
-                assert!(index < n, "insert: numbers are allocated densely");
-                let post = snapshot(&list, n);
-                assert!(wf_snap(&post, &list, n), "insert: wf re-established");
-                assert!(post.get(index) == Some(expected), "insert: the returned index holds the job");
-                assert!(list.find_by_pid(expected.pid) == Some(index), "insert: pid designates the new job");
-                assert!(others_unchanged(&pre, &post, n, Some(index)), "insert: no other job number changes");
-                match existing {
-                    Some(e) => {
-                        assert!(index == e, "insert: a finished job with the same pid is replaced in place");
-                        assert!(post.len == pre.len);
-                    }
-                    None => {
-                        assert!(pre.get(index).is_none(), "insert: a fresh job takes an unused number");
-                        assert!(post.len == pre.len + 1);
-                        // documented re-selection (job.rs, `insert`)
-                        match pre_cur_susp {
-                            None => assert!(post.cur == Some(index), "insert: first job becomes current"),
-                            Some(false) if new_susp => {
-                                assert!(post.cur == Some(index), "insert: suspended job becomes current over a running one");
-                                assert!(post.prev == pre.cur, "insert: old current becomes previous");
-                            }
-                            Some(_) => {
-                                assert!(post.cur == pre.cur, "insert: current job kept");
-                                match pre_prev_susp {
-                                    None => assert!(post.prev == Some(index), "insert: second job becomes previous"),
-                                    Some(false) if new_susp => assert!(post.prev == Some(index), "insert: suspended job becomes previous over a running one"),
-                                    Some(_) => assert!(post.prev == pre.prev, "insert: previous job kept"),
-                                }
-                            }
-                        }
-                    }
-                }
-            }
+    let list = shaped_list(slots, holes, cur, prev);
+    let pre = snapshot(&list, n);
+    // no wf assumption: the selector contracts hold for every table
+    match list.any_suspended_job_but_current() {
+        Some(i) => {
+            assert!(i != list.current_job_index, "any_suspended_job_but_current: not the current job");
+            assert!(pre.get(i).is_some() && pre.get(i).unwrap().state.is_stopped(), "any_suspended_job_but_current: suspended");
         }
-    });
-}
-
-// ---------------------------------------------------------------- remove
-fn check_remove(slots: usize, holes: &[usize]) {
-    let n = slots + 1;
-    for_all_index_pairs!(slots, |cur, prev| {
-        let mut ki = 0;
-        while ki <= slots + 2 {
-            let index = index_choice(ki, slots);
-            let mut list = shaped_list(slots, holes, cur, prev);
-            let pre = snapshot(&list, n);
-            if wf_snap(&pre, &list, n) {
-                kani::cover!(pre.get(index).is_some(), "remove: live index reachable");
-
-                let removed = list.remove(index);
-
-                let post = snapshot(&list, n);
-                match pre.get(index) {
-                    None => {
-                        assert!(removed.is_none(), "remove: None for an index that is not live");
-                        assert!(same_table(&pre, &post, n), "remove: no change for an index that is not live");
-                    }
-                    Some(j) => {
-                        assert!(removed.as_ref().map(js) == Some(j), "remove: the job is returned");
-                        assert!(post.get(index).is_none(), "remove: the number is free");
-                        assert!(list.find_by_pid(j.pid).is_none(), "remove: pid no longer designates a job");
-                        assert!(post.len == pre.len - 1);
-                        assert!(others_unchanged(&pre, &post, n, Some(index)), "remove: no other job number changes");
-                        // documented: removing the current job promotes the previous job
-                        if Some(index) == pre.cur && post.len > 0 {
-                            assert!(post.cur == pre.prev, "remove: previous job becomes current");
-                        }
-                        if Some(index) != pre.cur {
-                            assert!(post.cur == pre.cur, "remove: current job kept");
-                        }
-                        if Some(index) != pre.cur && Some(index) != pre.prev {
-                            assert!(post.prev == pre.prev, "remove: previous job kept");
-                        }
-                    }
-                }
-                assert!(wf_snap(&post, &list, n), "remove: wf re-established");
-                if post.len == 0 {
-                    let idx = list.insert(Job::new(Pid(1)));
-                    assert!(idx == 0, "remove: numbering restarts at 0 after the table is emptied");
-                }
-            }
-            ki += 1;
-        }
-    });
-}
-
-// ---------------------------------------------------------------- update_status
-fn check_update_status(slots: usize, holes: &[usize]) {
-    let n = slots + 1;
-    for_all_index_pairs!(slots, |cur, prev| {
-        let mut list = shaped_list(slots, holes, cur, prev);
-        let pre = snapshot(&list, n);
-        if wf_snap(&pre, &list, n) {
-            let pid = Pid(kani::any());
-            let state = any_state();
-            let target = pre.find(pid, n);
-            kani::cover!(target.is_some(), "update_status: known pid reachable");
-
-            let result = list.update_status(pid, state);
-
-            let post = snapshot(&list, n);
-            assert!(result == target, "update_status: index of the job with that pid, None iff unknown");
-            match target {
-                None => assert!(same_table(&pre, &post, n), "update_status: unknown pid changes nothing"),
-                Some(t) => {
-                    assert!(others_unchanged(&pre, &post, n, Some(t)), "update_status: only that job changes");
-                    let a = pre.get(t).unwrap();
-                    let b = post.get(t).unwrap();
-                    assert!(b.pid == a.pid && b.job_controlled == a.job_controlled && b.is_owned == a.is_owned,
-                            "update_status: pid and flags of the job untouched");
-                    assert!(b.state == state, "update_status: state recorded");
-                    assert!(b.expected_state.is_none(), "update_status: expectation cleared");
-                    assert!(b.state_changed == (a.state_changed || a.expected_state != Some(state)), "update_status: state_changed rule");
-                    assert!(post.len == pre.len);
-                }
-            }
-            assert!(wf_snap(&post, &list, n), "update_status: wf re-established");
-        }
-    });
-}
-
-// ---------------------------------------------------------------- set_current_job
-fn check_set_current_job(slots: usize, holes: &[usize]) {
-    let n = slots + 1;
-    for_all_index_pairs!(slots, |cur, prev| {
-        let mut ki = 0;
-        while ki <= slots + 2 {
-            let index = index_choice(ki, slots);
-            let mut list = shaped_list(slots, holes, cur, prev);
-            let pre = snapshot(&list, n);
-            if wf_snap(&pre, &list, n) {
-                let any_susp = pre.suspended(n) > 0;
-
-                let result = list.set_current_job(index);
-
-                let post = snapshot(&list, n);
-                match pre.get(index) {
-                    None => {
-                        assert!(result == Err(SetCurrentJobError::NoSuchJob), "set_current_job: NoSuchJob");
-                        assert!(same_table(&pre, &post, n), "set_current_job: error changes nothing");
-                    }
-                    Some(j) => {
-                        if !j.state.is_stopped() && any_susp {
-                            assert!(result == Err(SetCurrentJobError::NotSuspended), "set_current_job: NotSuspended");
-                            assert!(same_table(&pre, &post, n), "set_current_job: error changes nothing");
-                        } else {
-                            assert!(result == Ok(()), "set_current_job: accepted");
-                            assert!(post.cur == Some(index), "set_current_job: selected job is current");
-                            if pre.cur != Some(index) {
-                                assert!(post.prev == pre.cur, "set_current_job: old current becomes previous");
-                            }
-                            assert!(others_unchanged(&pre, &post, n, None), "set_current_job: no job changes");
-                        }
-                    }
-                }
-                assert!(wf_snap(&post, &list, n), "set_current_job: wf re-established");
-            }
-            ki += 1;
-        }
-    });
-}
-
-// ---------------------------------------------------------------- extract_if / remove_if
-fn check_extract_if(slots: usize, holes: &[usize]) {
-    let n = slots + 1;
-    for_all_index_pairs!(slots, |cur, prev| {
-        let mut list = shaped_list(slots, holes, cur, prev);
-        let pre = snapshot(&list, n);
-        if wf_snap(&pre, &list, n) {
-            // an arbitrary predicate on the index (symbolic bit mask) that also exercises state_reported
-            let mask: u8 = kani::any();
-            let stop_after: u8 = kani::any();
-            let mut yielded = 0u8;
-            {
-                let mut it = list.extract_if(|i, mut job| {
-                    job.state_reported();
-                    i < 8 && (mask >> i) & 1 == 1
-                });
-                // dropping the iterator early must leave wf as well
-                let mut rounds = 0;
-                while rounds < n + 1 && yielded < stop_after {
-                    match it.next() {
-                        Some((i, job)) => {
-                            assert!(pre.get(i).map(|j| j.pid) == Some(job.pid), "extract_if: yields the job that had that number");
-                            assert!((mask >> i) & 1 == 1, "extract_if: only matching jobs are removed");
-                            yielded += 1;
-                        }
-                        None => break,
-                    }
-                    rounds += 1;
-                }
-            }
-            let post = snapshot(&list, n);
-            assert!(wf_snap(&post, &list, n), "extract_if: wf holds whenever the iterator is dropped");
+        None => {
             let mut i = 0;
             while i < n {
-                if let Some(j) = post.jobs[i] {
-                    let p = pre.jobs[i];
-                    assert!(p.is_some() && p.unwrap().pid == j.pid, "extract_if: surviving jobs keep their numbers");
-                    if stop_after as usize > n {
-                        assert!((mask >> i) & 1 == 0, "extract_if: a full pass removes every matching job");
-                    }
+                if let Some(j) = pre.jobs[i] {
+                    assert!(i == list.current_job_index || !j.state.is_stopped(), "any_suspended_job_but_current: None only if there is none");
                 }
                 i += 1;
             }
         }
-    });
-}
-
-// ---------------------------------------------------------------- observers
-fn check_observers(slots: usize, holes: &[usize]) {
-    let n = slots + 1;
-    for_all_index_pairs!(slots, |cur, prev| {
-        let list = shaped_list(slots, holes, cur, prev);
-        let pre = snapshot(&list, n);
-        if wf_snap(&pre, &list, n) {
-            // contracts of the two private selectors used by remove / update_status
-            match list.any_suspended_job_but_current() {
-                Some(i) => {
-                    assert!(i != list.current_job_index, "any_suspended_job_but_current: not the current job");
-                    assert!(pre.get(i).unwrap().state.is_stopped(), "any_suspended_job_but_current: suspended");
-                }
-                None => {
-                    let mut i = 0;
-                    while i < n {
-                        if let Some(j) = pre.jobs[i] {
-                            assert!(i == list.current_job_index || !j.state.is_stopped(), "any_suspended_job_but_current: None only if there is none");
-                        }
-                        i += 1;
-                    }
-                }
-            }
-            match list.any_job_but_current() {
-                Some(i) => assert!(i != list.current_job_index && pre.get(i).is_some(), "any_job_but_current: a live job other than current"),
-                None => assert!(pre.len <= 1, "any_job_but_current: None only with <= 1 job"),
-            }
-            // job ID resolution (%%, %+, %-, %n) = current / previous / get(n-1)
-            let id_cur = id::JobId::CurrentJob.find(&list);
-            assert!(id_cur.ok() == pre.cur, "%% and %+ designate the current job");
-            let id_prev = id::JobId::PreviousJob.find(&list);
-            assert!(id_prev.ok() == pre.prev, "%- designates the previous job");
-            let mut k = 1;
-            while k <= n {
-                let id_n = id::JobId::JobNumber(NonZero::new(k).unwrap()).find(&list);
-                match pre.get(k - 1) {
-                    Some(_) => assert!(id_n == Ok(k - 1), "%n designates job number n"),
-                    None => assert!(id_n.is_err(), "%n fails for a free number"),
-                }
-                k += 1;
+    }
+    match list.any_job_but_current() {
+        Some(i) => assert!(i != list.current_job_index && pre.get(i).is_some(), "any_job_but_current: a live job other than current"),
+        None => {
+            let mut i = 0;
+            while i < n {
+                assert!(pre.jobs[i].is_none() || i == list.current_job_index, "any_job_but_current: None only if there is none");
+                i += 1;
             }
         }
-    });
-}
-
-// ---------------------------------------------------------------- negative control
-/// Must FAIL: the precondition on pid reuse is dropped, so the invariant is not inductive
-/// (a live suspended job's pid is reused).  Guards against a vacuous wf.
-fn control_insert_without_pid_precondition(slots: usize, holes: &[usize]) {
-    let n = slots + 1;
-    for_all_index_pairs!(slots, |cur, prev| {
-        let mut list = shaped_list(slots, holes, cur, prev);
-        let pre = snapshot(&list, n);
-        if wf_snap(&pre, &list, n) {
-            let job = any_job();
-            list.insert(job);
-            assert!(wf(&list, n), "CONTROL (expected to fail): insert preserves wf without the pid precondition");
+    }
+    // job ID resolution (%%, %+, %-, %n) = current / previous / get(n-1)
+    let id_cur = id::JobId::CurrentJob.find(&list);
+    assert!(id_cur.ok() == pre.cur, "%% and %+ designate the current job");
+    let id_prev = id::JobId::PreviousJob.find(&list);
+    assert!(id_prev.ok() == pre.prev, "%- designates the previous job");
+    let mut k = 1;
+    while k <= n {
+        let id_n = id::JobId::JobNumber(NonZero::new(k).unwrap()).find(&list);
+        match pre.get(k - 1) {
+            Some(_) => assert!(id_n == Ok(k - 1), "%n designates job number n"),
+            None => assert!(id_n.is_err(), "%n fails for a free number"),
         }
-    });
+        k += 1;
+    }
 }
 
-macro_rules! shape_harnesses {
-    ($( $name:ident : $check:ident ( $slots:expr, [ $($h:expr),* ] ) ;)*) => {
-        $(
-            #[kani::proof]
-            #[kani::unwind(9)]
-            fn $name() { $check($slots, &[$($h),*]); }
-        )*
+/// Must FAIL: claims the selector never finds a job (guards against an unreachable harness body).
+fn control_selector(slots: usize, holes: &[usize]) {
+    let list = shaped_list(slots, holes, 0, 1);
+    assert!(list.any_job_but_current().is_none(), "CONTROL (expected to fail): any_job_but_current never finds a job");
+}
+
+macro_rules! observer_case {
+    ($name:ident, $slots:expr, [$($h:expr),*], $cur:expr, $prev:expr) => {
+        #[kani::proof]
+        #[kani::unwind(8)]
+        fn $name() { check_observers($slots, &[$($h),*], $cur, $prev); }
     };
 }
 
-// Shapes: q_ = quick tier (<= 3 slots, the shapes that exercise every branch),
-//         t_ = thorough tier only (all 15 shapes with <= 3 slots, plus 4-slot shapes).
-shape_harnesses! {
-    c12q_insert_s0:        check_insert(0, []);
-    c12q_insert_s1:        check_insert(1, []);
-    c12q_insert_s2:        check_insert(2, []);
-    c12q_insert_s3:        check_insert(3, []);
-    c12q_insert_s3_h1:     check_insert(3, [1]);
-    c12t_insert_s2_h0:     check_insert(2, [0]);
-    c12t_insert_s2_h1:     check_insert(2, [1]);
-    c12t_insert_s3_h0:     check_insert(3, [0]);
-    c12t_insert_s3_h2:     check_insert(3, [2]);
-    c12t_insert_s3_h01:    check_insert(3, [0, 1]);
-    c12t_insert_s3_h10:    check_insert(3, [1, 0]);
-    c12t_insert_s3_h02:    check_insert(3, [0, 2]);
-    c12t_insert_s3_h20:    check_insert(3, [2, 0]);
-    c12t_insert_s3_h12:    check_insert(3, [1, 2]);
-    c12t_insert_s3_h21:    check_insert(3, [2, 1]);
-    c12t_insert_s4:        check_insert(4, []);
-    c12t_insert_s4_h1:     check_insert(4, [1]);
-    c12t_insert_s4_h2:     check_insert(4, [2]);
+#[kani::proof]
+#[kani::unwind(8)]
+fn c12x_control_selector_s2() { control_selector(2, &[]); }
 
-    c12q_remove_s0:        check_remove(0, []);
-    c12q_remove_s1:        check_remove(1, []);
-    c12q_remove_s2:        check_remove(2, []);
-    c12q_remove_s3:        check_remove(3, []);
-    c12q_remove_s3_h1:     check_remove(3, [1]);
-    c12t_remove_s2_h0:     check_remove(2, [0]);
-    c12t_remove_s3_h0:     check_remove(3, [0]);
-    c12t_remove_s3_h2:     check_remove(3, [2]);
-    c12t_remove_s3_h02:    check_remove(3, [0, 2]);
-    c12t_remove_s4:        check_remove(4, []);
-    c12t_remove_s4_h1:     check_remove(4, [1]);
+// quick: every (current, previous) pair of the two-slot table, and the pairs of a three-slot
+// table with a hole that touch the hole, the dangling index and the live slots.
+observer_case!(c12q_observe_s0_c0p0, 0, [], 0, 0);
+observer_case!(c12q_observe_s0_c0p1, 0, [], 0, 1);
+observer_case!(c12q_observe_s0_c1p0, 0, [], 1, 0);
+observer_case!(c12q_observe_s1_c0p0, 1, [], 0, 0);
+observer_case!(c12q_observe_s1_c0p1, 1, [], 0, 1);
+observer_case!(c12q_observe_s1_c0p2, 1, [], 0, 2);
+observer_case!(c12q_observe_s1_c1p0, 1, [], 1, 0);
+observer_case!(c12q_observe_s1_c1p1, 1, [], 1, 1);
+observer_case!(c12q_observe_s1_c1p2, 1, [], 1, 2);
+observer_case!(c12q_observe_s1_c2p0, 1, [], 2, 0);
+observer_case!(c12q_observe_s1_c2p1, 1, [], 2, 1);
+observer_case!(c12q_observe_s1_c2p2, 1, [], 2, 2);
+observer_case!(c12q_observe_s2_c0p0, 2, [], 0, 0);
+observer_case!(c12q_observe_s2_c0p1, 2, [], 0, 1);
+observer_case!(c12q_observe_s2_c0p2, 2, [], 0, 2);
+observer_case!(c12q_observe_s2_c0p3, 2, [], 0, 3);
+observer_case!(c12q_observe_s2_c1p0, 2, [], 1, 0);
+observer_case!(c12q_observe_s2_c1p1, 2, [], 1, 1);
+observer_case!(c12q_observe_s2_c1p2, 2, [], 1, 2);
+observer_case!(c12q_observe_s2_c1p3, 2, [], 1, 3);
+observer_case!(c12q_observe_s2_c2p0, 2, [], 2, 0);
+observer_case!(c12q_observe_s2_c2p1, 2, [], 2, 1);
+observer_case!(c12q_observe_s2_c2p2, 2, [], 2, 2);
+observer_case!(c12q_observe_s2_c2p3, 2, [], 2, 3);
+observer_case!(c12q_observe_s2_c3p0, 2, [], 3, 0);
+observer_case!(c12q_observe_s2_c3p1, 2, [], 3, 1);
+observer_case!(c12q_observe_s2_c3p2, 2, [], 3, 2);
+observer_case!(c12q_observe_s2_c3p3, 2, [], 3, 3);
+observer_case!(c12q_observe_s3_h1_c0p2, 3, [1], 0, 2);
+observer_case!(c12q_observe_s3_h1_c2p0, 3, [1], 2, 0);
+observer_case!(c12q_observe_s3_h1_c1p0, 3, [1], 1, 0);
+observer_case!(c12q_observe_s3_h1_c0p1, 3, [1], 0, 1);
+observer_case!(c12q_observe_s3_h1_c4p2, 3, [1], 4, 2);
+observer_case!(c12q_observe_s3_h1_c2p4, 3, [1], 2, 4);
+observer_case!(c12q_observe_s3_h1_c0p0, 3, [1], 0, 0);
+// thorough: all pairs of the three-slot shapes
+observer_case!(c12t_observe_s3_h1_c0p3, 3, [1], 0, 3);
+observer_case!(c12t_observe_s3_h1_c0p4, 3, [1], 0, 4);
+observer_case!(c12t_observe_s3_h1_c1p1, 3, [1], 1, 1);
+observer_case!(c12t_observe_s3_h1_c1p2, 3, [1], 1, 2);
+observer_case!(c12t_observe_s3_h1_c1p3, 3, [1], 1, 3);
+observer_case!(c12t_observe_s3_h1_c1p4, 3, [1], 1, 4);
+observer_case!(c12t_observe_s3_h1_c2p1, 3, [1], 2, 1);
+observer_case!(c12t_observe_s3_h1_c2p2, 3, [1], 2, 2);
+observer_case!(c12t_observe_s3_h1_c2p3, 3, [1], 2, 3);
+observer_case!(c12t_observe_s3_h1_c3p0, 3, [1], 3, 0);
+observer_case!(c12t_observe_s3_h1_c3p1, 3, [1], 3, 1);
+observer_case!(c12t_observe_s3_h1_c3p2, 3, [1], 3, 2);
+observer_case!(c12t_observe_s3_h1_c3p3, 3, [1], 3, 3);
+observer_case!(c12t_observe_s3_h1_c3p4, 3, [1], 3, 4);
+observer_case!(c12t_observe_s3_h1_c4p0, 3, [1], 4, 0);
+observer_case!(c12t_observe_s3_h1_c4p1, 3, [1], 4, 1);
+observer_case!(c12t_observe_s3_h1_c4p3, 3, [1], 4, 3);
+observer_case!(c12t_observe_s3_h1_c4p4, 3, [1], 4, 4);
+observer_case!(c12t_observe_s3_c0p0, 3, [], 0, 0);
+observer_case!(c12t_observe_s3_c0p1, 3, [], 0, 1);
+observer_case!(c12t_observe_s3_c0p2, 3, [], 0, 2);
+observer_case!(c12t_observe_s3_c0p3, 3, [], 0, 3);
+observer_case!(c12t_observe_s3_c0p4, 3, [], 0, 4);
+observer_case!(c12t_observe_s3_c1p0, 3, [], 1, 0);
+observer_case!(c12t_observe_s3_c1p1, 3, [], 1, 1);
+observer_case!(c12t_observe_s3_c1p2, 3, [], 1, 2);
+observer_case!(c12t_observe_s3_c1p3, 3, [], 1, 3);
+observer_case!(c12t_observe_s3_c1p4, 3, [], 1, 4);
+observer_case!(c12t_observe_s3_c2p0, 3, [], 2, 0);
+observer_case!(c12t_observe_s3_c2p1, 3, [], 2, 1);
+observer_case!(c12t_observe_s3_c2p2, 3, [], 2, 2);
+observer_case!(c12t_observe_s3_c2p3, 3, [], 2, 3);
+observer_case!(c12t_observe_s3_c2p4, 3, [], 2, 4);
+observer_case!(c12t_observe_s3_c3p0, 3, [], 3, 0);
+observer_case!(c12t_observe_s3_c3p1, 3, [], 3, 1);
+observer_case!(c12t_observe_s3_c3p2, 3, [], 3, 2);
+observer_case!(c12t_observe_s3_c3p3, 3, [], 3, 3);
+observer_case!(c12t_observe_s3_c3p4, 3, [], 3, 4);
+observer_case!(c12t_observe_s3_c4p0, 3, [], 4, 0);
+observer_case!(c12t_observe_s3_c4p1, 3, [], 4, 1);
+observer_case!(c12t_observe_s3_c4p2, 3, [], 4, 2);
+observer_case!(c12t_observe_s3_c4p3, 3, [], 4, 3);
+observer_case!(c12t_observe_s3_c4p4, 3, [], 4, 4);
+observer_case!(c12t_observe_s3_h0_c0p0, 3, [0], 0, 0);
+observer_case!(c12t_observe_s3_h0_c0p1, 3, [0], 0, 1);
+observer_case!(c12t_observe_s3_h0_c0p2, 3, [0], 0, 2);
+observer_case!(c12t_observe_s3_h0_c0p3, 3, [0], 0, 3);
+observer_case!(c12t_observe_s3_h0_c1p0, 3, [0], 1, 0);
+observer_case!(c12t_observe_s3_h0_c1p1, 3, [0], 1, 1);
+observer_case!(c12t_observe_s3_h0_c1p2, 3, [0], 1, 2);
+observer_case!(c12t_observe_s3_h0_c1p3, 3, [0], 1, 3);
+observer_case!(c12t_observe_s3_h0_c2p0, 3, [0], 2, 0);
+observer_case!(c12t_observe_s3_h0_c2p1, 3, [0], 2, 1);
+observer_case!(c12t_observe_s3_h0_c2p2, 3, [0], 2, 2);
+observer_case!(c12t_observe_s3_h0_c2p3, 3, [0], 2, 3);
+observer_case!(c12t_observe_s3_h0_c3p0, 3, [0], 3, 0);
+observer_case!(c12t_observe_s3_h0_c3p1, 3, [0], 3, 1);
+observer_case!(c12t_observe_s3_h0_c3p2, 3, [0], 3, 2);
+observer_case!(c12t_observe_s3_h0_c3p3, 3, [0], 3, 3);
 
-    c12q_update_s0:        check_update_status(0, []);
-    c12q_update_s1:        check_update_status(1, []);
-    c12q_update_s2:        check_update_status(2, []);
-    c12q_update_s3:        check_update_status(3, []);
-    c12q_update_s3_h1:     check_update_status(3, [1]);
-    c12t_update_s3_h0:     check_update_status(3, [0]);
-    c12t_update_s3_h2:     check_update_status(3, [2]);
-    c12t_update_s4:        check_update_status(4, []);
-    c12t_update_s4_h2:     check_update_status(4, [2]);
-
-    c12q_setcur_s0:        check_set_current_job(0, []);
-    c12q_setcur_s2:        check_set_current_job(2, []);
-    c12q_setcur_s3:        check_set_current_job(3, []);
-    c12q_setcur_s3_h1:     check_set_current_job(3, [1]);
-    c12t_setcur_s1:        check_set_current_job(1, []);
-    c12t_setcur_s4:        check_set_current_job(4, []);
-
-    c12q_extract_s2:       check_extract_if(2, []);
-    c12q_extract_s3:       check_extract_if(3, []);
-    c12t_extract_s3_h1:    check_extract_if(3, [1]);
-    c12t_extract_s4:       check_extract_if(4, []);
-
-    c12q_observe_s0:       check_observers(0, []);
-    c12q_observe_s3:       check_observers(3, []);
-    c12q_observe_s3_h1:    check_observers(3, [1]);
-    c12t_observe_s4:       check_observers(4, []);
-
-    c12x_control_insert_s2: control_insert_without_pid_precondition(2, []);
+// ---- cross-checks of the mutators on single concrete (shape, current, previous) cases: these give
+// ---- concrete counterexamples for contracts the Verus unit proves in general.  Thorough tier only.
+macro_rules! mutator_case {
+    ($name:ident, $slots:expr, [$($h:expr),*], $cur:expr, $prev:expr, $op:ident) => {
+        #[kani::proof]
+        #[kani::unwind(8)]
+        fn $name() { $op($slots, &[$($h),*], $cur, $prev); }
+    };
 }
+
+fn case_insert(slots: usize, holes: &[usize], cur: usize, prev: usize) {
+    let n = slots + 1;
+    let mut list = shaped_list(slots, holes, cur, prev);
+    let pre = snapshot(&list, n);
+    kani::assume(wf_snap(&pre, &list, n));
+    let job = any_job();
+    let expected = js(&job);
+    let existing = pre.find(job.pid, n);
+    if let Some(e) = existing {
+        kani::assume(!pre.get(e).unwrap().state.is_alive());
+    }
+    let index = list.insert(job);
+    let post = snapshot(&list, n);
+    assert!(wf_snap(&post, &list, n), "insert: wf re-established");
+    assert!(post.get(index) == Some(expected), "insert: the returned index holds the job");
+    assert!(others_unchanged(&pre, &post, n, Some(index)), "insert: no other job number changes");
+}
+
+fn case_remove(slots: usize, holes: &[usize], cur: usize, prev: usize) {
+    let n = slots + 1;
+    let mut list = shaped_list(slots, holes, cur, prev);
+    let pre = snapshot(&list, n);
+    kani::assume(wf_snap(&pre, &list, n));
+    let index: usize = kani::any();
+    kani::assume(index < n);
+    let removed = list.remove(index);
+    let post = snapshot(&list, n);
+    assert!(removed.is_some() == pre.get(index).is_some(), "remove: Some iff the index was live");
+    assert!(others_unchanged(&pre, &post, n, Some(index)), "remove: no other job number changes");
+    assert!(wf_snap(&post, &list, n), "remove: wf re-established");
+}
+
+fn case_update(slots: usize, holes: &[usize], cur: usize, prev: usize) {
+    let n = slots + 1;
+    let mut list = shaped_list(slots, holes, cur, prev);
+    let pre = snapshot(&list, n);
+    kani::assume(wf_snap(&pre, &list, n));
+    let pid = Pid(kani::any());
+    let state = any_state();
+    let r = list.update_status(pid, state);
+    let post = snapshot(&list, n);
+    assert!(r == pre.find(pid, n), "update_status: index of the job with that pid");
+    assert!(others_unchanged(&pre, &post, n, r), "update_status: only that job changes");
+    assert!(wf_snap(&post, &list, n), "update_status: wf re-established");
+}
+
+mutator_case!(c12t_insert_s1_c0, 1, [], 0, 1, case_insert);
+mutator_case!(c12t_insert_s2_c1p0, 2, [], 1, 0, case_insert);
+mutator_case!(c12t_remove_s2_c0p1, 2, [], 0, 1, case_remove);
+mutator_case!(c12t_update_s2_c0p1, 2, [], 0, 1, case_update);
